@@ -1,5 +1,5 @@
 (* C04 -- ThresholdOptimizer equalises the constrained metric exactly on the training data.
-   Only statements, `exact`, and Print Assumptions.  Gen_metricdict / Gen_hull / Gen_threshopt are regenerated
+   Only statements, `exact` (source ties: reflexivity / ring / field), and Print Assumptions.  Gen_* are regenerated
    from /repo on every run; the first theorems tie the model's metric table, derived confusion-matrix
    fields, hull drop test, interpolation formulas, tradeoff-point construction and the optimisation step
    (group weights, accumulation, arg-max, row selection, pointwise min, objective counts, p_ignore) to them. *)
@@ -104,14 +104,14 @@ Print Assumptions C04_tradeoff_points_are_source.
 
 (* every metric SIMPLE_CONSTRAINTS maps a constraint name to satisfies the premise of C04_simple_parity, and every
    member of OBJECTIVES_FOR_EQUALIZED_ODDS the premise of C05_eo_optimal *)
-Theorem C04_admitted_configurations_are_source :
+Theorem C04_allowed_configurations_are_source :
   Forall constraint_metric Gen_threshopt.simple_constraint_metrics /\
   Forall (fun o => o = Acc \/ o = BalAcc) Gen_threshopt.eo_objectives.
 Proof.
   split; [unfold Gen_threshopt.simple_constraint_metrics; repeat (apply Forall_cons; [exact I|]); apply Forall_nil
          | unfold Gen_threshopt.eo_objectives; repeat (apply Forall_cons; [auto|]); apply Forall_nil].
 Qed.
-Print Assumptions C04_admitted_configurations_are_source.
+Print Assumptions C04_allowed_configurations_are_source.
 
 (* ---- interp_index_valid ---- *)
 (* every row k <= N of a hull's interpolated curve mixes two ADJACENT hull vertices i, i+1 with x_i < x_{i+1},
